@@ -5,12 +5,13 @@ use rustc_ast as ast;
 use rustc_ast::visit::{self, Visitor};
 use rustc_middle::ty::TyCtxt;
 
-struct V<'a> {
+struct V<'a, 'tcx> {
+    tcx: TyCtxt<'tcx>,
     out: &'a mut Vec<J>,
     stack: Vec<String>,
 }
 
-impl<'a, 'ast> Visitor<'ast> for V<'a> {
+impl<'a, 'ast, 'tcx> Visitor<'ast> for V<'a, 'tcx> {
     fn visit_item(&mut self, i: &'ast ast::Item) {
         let name = match i.kind.ident() {
             Some(id) => id.to_string(),
@@ -43,6 +44,7 @@ impl<'a, 'ast> Visitor<'ast> for V<'a> {
         if let ast::ExprKind::FormatArgs(fa) = &e.kind {
             let mut o = J::obj();
             o.put("item", J::s(self.stack.join("::")));
+            o.put("sp", crate::common::span_j(self.tcx, e.span));
             let mut pieces = vec![];
             for p in fa.template.iter() {
                 match p {
@@ -80,7 +82,7 @@ pub fn collect(tcx: TyCtxt<'_>) -> Vec<J> {
     let mut out = vec![];
     let resolver = tcx.resolver_for_lowering().borrow();
     let krate: &ast::Crate = &resolver.1;
-    let mut v = V { out: &mut out, stack: vec![] };
+    let mut v = V { tcx, out: &mut out, stack: vec![] };
     visit::walk_crate(&mut v, krate);
     drop(resolver);
     out
